@@ -11,7 +11,7 @@ CHECKS = {
              text="32 keyed primitives; every key/message/password/system-source/masking-word byte is marked undefined, public values stay defined, outputs and the accept/reject result are declassified after the call; memcheck then reports exactly the conditional jumps and address computations that depend on secrets. Exploration: the oracle is binary-level and exact for executed paths; the generator covers every length branch (0..5 blocks, rate-1/rate/rate+1).",
              note="Dynamic (executed paths only); no view of instruction timing or micro-architecture; trusts memcheck's definedness propagation; C++ wrappers that branch on the (public) accept/reject result are not tainted.", ref="4/C11"),
  "C16": dict(level="exploration", technique="rapidcheck-generated multi-threaded workloads (2..16 threads, barrier start, generated yields, per-thread objects + shared const objects) under gcc ThreadSanitizer builds of library and harness; per-thread results compared with the sequential run; a second generated property forks a fresh process per case in which the threads' first library calls are the same generated calls (one-time initialisation races); exhaustive scan of the release archives for writable non-thread-local data objects",
-             text="A happens-before race detector reports a conflicting pair even when the two accesses did not overlap in time, so hidden mutable global/static state shows up on the first round that touches it from two threads; results are additionally compared with the sequential run of the same operations. Because a sequential reference run in the same process would complete any lazy initialisation first, the first-use property runs each case in a freshly forked child. The statement "keeps no hidden mutable global state" is also decided directly by enumerating the writable data symbols of the built archives (none on the unchanged tree).",
+             text="A happens-before race detector reports a conflicting pair even when the two accesses did not overlap in time, so hidden mutable global/static state shows up on the first round that touches it from two threads; results are additionally compared with the sequential run of the same operations. Because a sequential reference run in the same process would complete any lazy initialisation first, the first-use property runs each case in a freshly forked child. The statement 'keeps no hidden mutable global state' is also decided directly by enumerating the writable data symbols of the built archives (none on the unchanged tree).",
              note="The harness does not own the scheduler: the claim is race-freedom of generated workloads under a happens-before detector, not an enumeration of interleavings; the x86-64 assembly is uninstrumented (it only touches its arguments).", ref="4/C16"),
  "C13": dict(level="exploration", technique="rapidcheck PBT with a secret-swap metamorphic oracle: the same public history run twice in the same storage with independent secrets must leave identical raw object bytes after free / clear() / destructor; release -O3 library",
              text="39 object types x generated histories (chunking, finalize/squeeze/encrypt/randomize/reseed steps) x end action; every byte of sizeof(T) is compared between two runs that differ only in keys, messages, system-source bytes and masking words. Stronger than 'all zero' and does not false-alarm on objects that are re-keyed with zeros.",
